@@ -251,6 +251,13 @@ for _pid, _groups in (("C13", ["AlignOpts"]), ("C12", ["JustifyOpts"]), ("C07", 
 REGEN_CXA.update({"AlignOpts": ["editorAlignOpts_cxA", "editorAlign_cxA"],
                   "JustifyOpts": ["editorJustifyOpts_cxA", "editorJustify_cxA"]})
 
+# T4 (repair of D18): affixPlaceholder, the stand-in WrapOpts / JustifyOpts pad paragraphs with; the hypothesis
+# PhFresh of its theorem (and of the two callers') is discharged at cxA by pigeonhole (phFresh_cxA)
+REGEN["AffixPlaceholder"] = ["affixPlaceholder"]
+for _pid in ("C06", "C07", "C11", "C12", "C17"):
+    REGEN_OF.setdefault(_pid, []).append("AffixPlaceholder")
+REGEN_CXA["AffixPlaceholder"] = ["affixPlaceholder_cxA", "phFresh_cxA"]
+
 
 # ---- transitive closure over the call graph (round 7 of seeded changes) -----------------------------
 # A property about Align also rests on what AlignLine* CALL: CountTrailingWhitespace -> gem.String.LastIndexFunc ->
